@@ -5,7 +5,7 @@
 From Coq Require Import List ZArith NArith Bool Arith.
 Import ListNotations.
 From RV Require Import Lib.Str Model.DataFile Proofs.DataFileP.
-From RV Require Import Gen.GenFacts.
+From RV Require Import Gen.GenFactsRewrite.
 
 (** Every line that is not a measurement (comments, metadata block lines, records, the header, a
     line that cannot be read, an incomplete last line) is kept, in order. *)
